@@ -20,7 +20,7 @@ RULE = ("Hypothesis-generated synthetic checkpoints (1-3 nested levels, non-cubi
         "field list; levels, boxes, time, bounds; every box == interior of the state FAB bit-exact (species / sum when "
         "flooring, rtol 1e-14) followed by the gradp / I_R FAB with the same index range; min/max rows == extrema of "
         "the written data; checkpoint snapshot unchanged; two numpy.empty / empty_like poisons give identical trees (one checkpoint in four holds cells without any species: what flooring makes of them is not asserted, only that it is determined by the checkpoint). "
-        "The second conversion's object converts once more into the same place. Non-trivial = >= 2 levels, or a scattered / non-monotone subset layout, or state and gradp layouts differ.")
+        "One checkpoint in 40 is a single box of 36^3 cells (FABs above one mebibyte). The second conversion's object converts once more into the same place. Non-trivial = >= 2 levels, or a scattered / non-monotone subset layout, or state and gradp layouts differ.")
 ASSUMPTIONS = ["checkpoint format as in test_assets/example_chk_3d (five subsets, nodal p, ghosted state / divU)",
                "non-integral times (the reader's heuristic for the optional integer line)"]
 
